@@ -107,6 +107,21 @@ func genC19compose(r *rand.Rand, n int, emit func(string)) {
 			doc["a/b"] = []interface{}{M{}}
 		}
 		var ps []interface{}
+		if r.Intn(500) == 0 {
+			// a chain of copies between two lists: each appends one list to the other, the sizes
+			// are the Fibonacci numbers (x 1.618 per operation). Kept small enough to answer.
+			ops := []interface{}{M{"op": "add", "path": "/fa", "value": []interface{}{"x"}}, M{"op": "add", "path": "/fb", "value": []interface{}{"x"}}}
+			copies := 12 + 2*r.Intn(3)
+			for k := 0; k < copies; k++ {
+				if k%2 == 0 {
+					ops = append(ops, M{"op": "copy", "from": "/fa", "path": "/fb/-"})
+				} else {
+					ops = append(ops, M{"op": "copy", "from": "/fb", "path": "/fa/-"})
+				}
+			}
+			emit(proto.Line("compose", M{"doc": M{}, "patches": []interface{}{M{"action": "ietf-json-patch", "patches": ops}}, "label": "copy-chain", "copies": copies}))
+			continue
+		}
 		for k := 1 + r.Intn(3); k > 0; k-- {
 			switch r.Intn(6) {
 			case 0:
